@@ -96,6 +96,40 @@ def run(chk, replay=None):
                 if d != t:
                     variants.append(("different-type", [(m, (gen.gen_val(rng, d) if m == n else v)) for m, v in base]))
                     break
+        # combinations: the rules must hold jointly (an undeclared name next to an ill-typed declared one, ...)
+        singles = {k: m for k, m in variants}
+        for _ in range(4):
+            m = list(base)
+            tags = []
+            if decl and rng.random() < 0.7:
+                j = rng.randrange(len(decl))
+                n, t = decl[j]
+                which = rng.choice(["different-type", "same-layout-type", "other-value"])
+                repl = None
+                if which == "different-type":
+                    for _ in range(10):
+                        d = pg.small_ty(1)
+                        if d != t:
+                            repl = gen.gen_val(rng, d)
+                            break
+                elif which == "same-layout-type":
+                    ps = progen.cast_partners(t)
+                    if ps:
+                        repl = gen.gen_val(rng, rng.choice(ps))
+                else:
+                    repl = perturb(rng, t, lits[n])
+                if repl is not None:
+                    m = [(a, (repl if a == n else v)) for a, v in m]
+                    tags.append(which)
+            if len(decl) > 1 and rng.random() < 0.3:
+                drop = rng.choice([n for n, _ in decl])
+                m = [p for p in m if p[0] != drop]
+                tags.append("missing")
+            k = rng.choice([1, 2, 6, 12])
+            m += [("X%d_%s" % (q, rng.choice("abcxyz")), gen.gen_val(rng, pg.small_ty(1))) for q in range(k)]
+            tags.append("extra%d" % k)
+            rng.shuffle(m)
+            variants.append(("combo:" + "+".join(tags), m))
         for kind, m in variants:
             cases.append((text, decl, lits, m, kind))
     il = ["(run %s () %s 0)" % (quote(c[0]), corelib.bindings_sx(c[3])) for c in cases]
@@ -105,7 +139,7 @@ def run(chk, replay=None):
     for (text, decl, lits, m, kind), x, y, ln in zip(cases, ia, mb, il):
         ci = corelib.classify_impl(x)
         chk.case(ln, sample={"program": text[:200], "map": corelib.bindings_sx(m)[:160], "kind": kind, "implementation": ci})
-        chk.count("%s.%s" % (kind, ci))
+        chk.count("%s.%s" % (re.sub(r"extra\d+", "extra", kind), ci))
         base = {"cmd": "core", "line": ln, "program": text, "witness": corelib.bindings_sx(m), "implementation": x, "model_consistent": y}
         if ci == "panic":
             chk.violation({"class": "satisfy-panic", "what": "%s %s" % (kind, x[:120])}, dict(base, broken="satisfy / execution panicked"))
@@ -128,4 +162,4 @@ def run(chk, replay=None):
             chk.violation({"class": "delivery", "what": "%s: expected %s got %s" % (kind, want, ci)},
                           dict(base, expected=want, broken="a witness expression does not evaluate to the value supplied under its name (C05_delivery / C05_witness_expression + C01)"))
     chk.extra["rule"] = ("programs with 0..8 witnesses of random observable types, each compared leaf by leaf with a literal; maps: exact, permuted, extra names, one name missing (documented: zero value), "
-                         "one value changed, one value replaced by a value of a layout-equal but different type, one by a value of a different type; satisfy Ok/Err vs the model, execution vs the expected delivery")
+                         "one value changed, one value replaced by a value of a layout-equal but different type, one by a value of a different type, and random combinations of these with 1..12 undeclared names; satisfy Ok/Err vs the model, execution vs the expected delivery")
